@@ -345,6 +345,59 @@ class _TupleEq(ast.NodeTransformer):
         return node
 
 
+class _NegCanon(ast.NodeTransformer):
+    """Negations in one spelling: ``if not c: A else: B`` -> ``if c: B else: A`` (both arms present);
+    ``a if not c else b`` -> ``b if c else a``; ``not not c`` -> ``c`` where only the truth value is used;
+    ``not a == b`` -> ``a != b``, ``not a in b`` -> ``a not in b``, ``not a is b`` -> ``a is not b``."""
+
+    _COMP = {ast.Eq: ast.NotEq, ast.NotEq: ast.Eq, ast.In: ast.NotIn, ast.NotIn: ast.In, ast.Is: ast.IsNot, ast.IsNot: ast.Is}
+
+    def _truth(self, t):
+        """Canonical form of an expression used only for its truth value."""
+        while isinstance(t, ast.UnaryOp) and isinstance(t.op, ast.Not) and isinstance(t.operand, ast.UnaryOp) and isinstance(t.operand.op, ast.Not):
+            t = t.operand.operand
+        return t
+
+    def visit_UnaryOp(self, node):
+        self.generic_visit(node)
+        if isinstance(node.op, ast.Not):
+            node.operand = self._truth(node.operand)
+            o = node.operand
+            if isinstance(o, ast.Compare) and len(o.ops) == 1 and type(o.ops[0]) in self._COMP:
+                return ast.copy_location(ast.Compare(left=o.left, ops=[self._COMP[type(o.ops[0])]()], comparators=o.comparators), node)
+        return node
+
+    _NEGATIVE = (ast.NotEq, ast.NotIn, ast.IsNot)
+
+    def _positive(self, node):
+        """With both arms present the test is written positively (``!=``, ``not in``, ``is not`` and ``not`` swap the arms)."""
+        t = node.test
+        if isinstance(t, ast.UnaryOp) and isinstance(t.op, ast.Not):
+            node.test = t.operand
+            node.body, node.orelse = node.orelse, node.body
+        elif isinstance(t, ast.Compare) and len(t.ops) == 1 and isinstance(t.ops[0], self._NEGATIVE):
+            node.test = ast.copy_location(ast.Compare(left=t.left, ops=[self._COMP[type(t.ops[0])]()], comparators=t.comparators), t)
+            node.body, node.orelse = node.orelse, node.body
+        return node
+
+    def visit_If(self, node):
+        self.generic_visit(node)
+        node.test = self._truth(node.test)
+        if node.orelse:
+            self._positive(node)
+        return node
+
+    def visit_IfExp(self, node):
+        self.generic_visit(node)
+        node.test = self._truth(node.test)
+        return self._positive(node)
+
+    def visit_While(self, node):
+        self.generic_visit(node)
+        node.test = self._truth(node.test)
+        return node
+
+
 class _Prepass:
     """Statement-level canonicalisation before summarising (each rewrite preserves behaviour):
 
@@ -509,6 +562,7 @@ class Summary:
         self.n_defs = 0
         self.carry = []  # stack of name lists whose values must be reported when control leaves the enclosing body
         f = _fresh(func)
+        f = _NegCanon().visit(f)
         for n in ast.walk(f):
             for fld in ("body", "orelse", "finalbody", "handlers"):
                 blk = getattr(n, fld, None)
@@ -1120,10 +1174,15 @@ def _brief(it):
     return " | ".join(str(x)[:300] for x in it)
 
 
+def _sxu(node):
+    from .symexec import _u
+    return _u(node)
+
+
 def same(seq1, seq2, asg=None, budget=None):
     """Are two item sequences equal for every truth assignment extending ``asg``?"""
     asg = dict(asg or {})
-    budget = budget or Budget(20000)
+    budget = budget or Budget(100000)
     budget.spend()
     i = j = 0
     s1, s2 = list(seq1), list(seq2)
@@ -1134,7 +1193,7 @@ def same(seq1, seq2, asg=None, budget=None):
             if not (h1 is None and h2 is None):
                 LAST_DIFF.append(("length", _brief(h1), _brief(h2)))
             return h1 is None and h2 is None
-        if h1[0] == "if" and h2[0] == "if" and U(h1[1]) == U(h2[1]) and all(b and b[-1] == ("fall",) for b in (h1[2], h1[3], h2[2], h2[3])):
+        if h1[0] == "if" and h2[0] == "if" and _sxu(h1[1]) == _sxu(h2[1]) and all(b and b[-1] == ("fall",) for b in (h1[2], h1[3], h2[2], h2[3])):
             # the same test around blocks that fall through: compare the arms, then carry on once with the rest
             r = _resolve(h1[1], asg)
             ats = sorted(_atoms(h1[1]))
@@ -1151,7 +1210,7 @@ def same(seq1, seq2, asg=None, budget=None):
             i += 1
             j += 1
             continue
-        if h1[0] == "if" and h2[0] == "if" and U(h1[1]) == U(h2[1]):
+        if h1[0] == "if" and h2[0] == "if" and _sxu(h1[1]) == _sxu(h2[1]):
             r = _resolve(h1[1], asg)
             rest1, rest2 = s1[i + 1:], s2[j + 1:]
             oks = True
@@ -1310,15 +1369,100 @@ def equivalent(cur, ref, consts=None, pure_extra=()):
         return False, "differs: signature or decorators"
     if ast.dump(_strip_doc(cur)) == ast.dump(_strip_doc(ref)):
         return True, ""
+    if alpha_equal(cur, ref):
+        return True, ""
+    from . import symexec as _sx
     try:
         s1 = Summary(cur, consts, pure_extra)
         s2 = Summary(ref, consts, pure_extra)
-        ok = same(s1.items, s2.items)
+        _sx.UCACHE = {}
+        try:
+            ok = same(s1.items, s2.items)
+        finally:
+            _sx.UCACHE = None
     except NotProven as e:
         return False, f"not proven: {e}"
     except RecursionError:
         return False, "not proven: recursion limit"
     return (True, "") if ok else (False, "differs: effect sequences")
+
+
+def _strip_all_docs(func):
+    f = ast.parse(ast.unparse(func)).body[0]
+    for n in ast.walk(f):
+        if isinstance(n, (ast.FunctionDef, ast.AsyncFunctionDef, ast.ClassDef)) and n.body and isinstance(n.body[0], ast.Expr) \
+                and isinstance(n.body[0].value, ast.Constant) and isinstance(n.body[0].value.value, str):
+            n.body = n.body[1:] or [ast.Pass()]
+    return f
+
+
+def _bound_names(func):
+    """Names bound inside the function (any nested scope), other than parameters and global/nonlocal declarations."""
+    out = set()
+    excluded = set()
+    for n in ast.walk(func):
+        if isinstance(n, ast.Name) and isinstance(n.ctx, (ast.Store, ast.Del)):
+            out.add(n.id)
+        elif isinstance(n, ast.ExceptHandler) and n.name:
+            out.add(n.name)
+        elif isinstance(n, (ast.FunctionDef, ast.AsyncFunctionDef, ast.ClassDef)) and n is not func:
+            out.add(n.name)
+        elif isinstance(n, (ast.Global, ast.Nonlocal)):
+            excluded |= set(n.names)
+        elif isinstance(n, ast.arg):
+            excluded.add(n.arg)
+        elif isinstance(n, (ast.Import, ast.ImportFrom)):
+            excluded |= {(a.asname or a.name).split(".")[0] for a in n.names}
+    return out - excluded
+
+
+def alpha_equal(cur, ref) -> bool:
+    """The two functions are the same up to a consistent one-to-one renaming of the names they bind locally (locals,
+    comprehension and loop variables, exception names, nested function names).  Parameters, attributes, keywords,
+    globals and constants must agree exactly; docstrings are ignored."""
+    a, b = _strip_all_docs(cur), _strip_all_docs(ref)
+    la, lb = _bound_names(a), _bound_names(b)
+    fwd, bwd = {}, {}
+
+    def name(x, y):
+        xa, yb = x in la, y in lb
+        if xa != yb:
+            return False
+        if not xa:
+            return x == y
+        if fwd.setdefault(x, y) != y or bwd.setdefault(y, x) != x:
+            return False
+        return True
+
+    def eq(x, y, top=False):
+        if type(x) is not type(y):
+            return False
+        if isinstance(x, ast.Name):
+            return name(x.id, y.id) and type(x.ctx) is type(y.ctx)
+        if isinstance(x, ast.ExceptHandler):
+            if (x.name is None) != (y.name is None) or (x.name is not None and not name(x.name, y.name)):
+                return False
+        if isinstance(x, (ast.FunctionDef, ast.AsyncFunctionDef, ast.ClassDef)) and not top:
+            if not name(x.name, y.name):
+                return False
+        if isinstance(x, ast.AST):
+            for f_ in x._fields:
+                if f_ in ("ctx",):
+                    continue
+                if f_ == "name" and isinstance(x, (ast.ExceptHandler, ast.FunctionDef, ast.AsyncFunctionDef, ast.ClassDef)):
+                    if top and x.name != y.name:
+                        return False
+                    continue
+                if f_ in ("type_comment",):
+                    continue
+                if not eq(getattr(x, f_, None), getattr(y, f_, None)):
+                    return False
+            return True
+        if isinstance(x, list):
+            return len(x) == len(y) and all(eq(p, q) for p, q in zip(x, y))
+        return x == y and type(x) is type(y)
+
+    return eq(a, b, top=True)
 
 
 def _strip_doc(func):
